@@ -66,6 +66,9 @@ def ll_cases(rng, count, sizes):
             for _ in range(rng.randint(0, 3)):
                 d[rng.randrange(n)] = rng.choice([-1, 1, 2])
             pts.append([b + x for b, x in zip(base, d)])
+        if c % 5 == 4 and n <= 12:
+            # a held signal: the same stacked window many times over, across the chunks a parallel loop is split into
+            pts = [p for p in pts for _ in range(40)]
         cases.append({"fn": "lltable", "n": n, "W": W, "N": n // W,
                       "clusters": [{"b1": f["b1"], "b2": f["b2"], "e": f["e"], "mu": f["mu"],
                                     "theta": f["theta"].tolist(), "stale": (c % 3 == 1 and k % 2 == 0)}
@@ -179,7 +182,10 @@ def ch_job(job):
     # "sum of squares minus n * mean^2" dispersion loses every digit; the two-pass definition does not)
     col, shift = rng.randrange(C), rng.choice([1, 2, 5, 2 ** 20, 10 ** 6, 2 ** 27, 3 * 10 ** 8])
 
+    unit = 2.0 ** -rng.choice([0, 0, 20, 40])          # Wd down to 1e-24: an absolute epsilon in the ratio would show
+
     def index_of(data):
+        data = [[v * unit for v in row] for row in data]
         args = arguments.UserArguments(sparsity_weight=0.1, iteration_limit=3, label_switching_cost=1.0,
                                        min_cluster_size=1, min_meaningful_covariance=0, num_clusters=K,
                                        num_processors=1, window_size=1, biased_covariance=True)
@@ -221,12 +227,21 @@ def big_job(job):
              beta=5.0, beta_form="float", biased=bool(seed % 2), n_regimes=K, readonly=False, fortran=False, P=1, mp=False,
              lens=[T], offset=0.0, series_dtype=None, degenerate=None, outlier=False)
     c["big"] = True
+    if K > 100:
+        c.update(ramp=True, biased=True, m=5)
     tr = runs.traced_run(c)
     last = tr["events"][-1]
     if last["ev"] != "return":
         return {"kind": "big", "completed": False, "type": last.get("type", ""), "T": T}
     sizes = [last["modelLabels"].count(k) for k in range(K)]
-    return {"kind": "big", "completed": True, "T": T, "n": len(last["modelLabels"]), "nAll": last["nAll"], "K": K,
+    per = last["labelsPerSeries"][0] if len(last["labelsPerSeries"]) == 1 else []
+    front = (W - 1) // 2
+    back = (W - 1) - front
+    labels_ok = (len(per) == T and bool(last["labelsIntegral"]) and all(v == -1 for v in per[:front])
+                 and all(v == -1 for v in per[len(per) - back:] if back) and all(0 <= v < K for v in per[front:len(per) - back])
+                 and per[front:len(per) - back] == last["modelLabels"] and last["K"] == K and last["W"] == W
+                 and len(last["mrfShapes"]) == K)
+    return {"kind": "big", "completed": True, "labelsOk": labels_ok, "clustersInUse": sum(1 for s_ in sizes if s_ > 0), "T": T, "n": len(last["modelLabels"]), "nAll": last["nAll"], "K": K,
             "largestCluster": max(sizes), "allNonEmpty": bool(last["allNonEmpty"]),
             "converged": any(e["ev"] == "converged" for e in tr["events"]),
             "acctOk": last["acctOk"], "o7result": last["o7result"], "bicOk": last["bicOk"],
